@@ -795,6 +795,10 @@ func (x *Exec) resolveIfaceFor(n *types.Named, name string) *types.Named {
 	if gen.TypeParams().Len() == 0 {
 		return gen
 	}
+	// infer the interface's type arguments from the implementer's method signatures
+	if inst := inferIfaceArgs(n, gen); inst != nil {
+		return inst
+	}
 	// instantiate by matching method signatures: try the type arguments of n in order,
 	// then fall back to positional prefixes
 	if n.TypeArgs() != nil {
@@ -812,6 +816,76 @@ func (x *Exec) resolveIfaceFor(n *types.Named, name string) *types.Named {
 				return namedOf(inst)
 			}
 		}
+	}
+	return nil
+}
+
+// inferIfaceArgs unifies the methods of generic interface gen with the methods of n.
+func inferIfaceArgs(n *types.Named, gen *types.Named) *types.Named {
+	it, ok := gen.Underlying().(*types.Interface)
+	if !ok {
+		return nil
+	}
+	tps := gen.TypeParams()
+	bind := map[*types.TypeParam]types.Type{}
+	var unify func(a, b types.Type)
+	unify = func(a, b types.Type) {
+		switch a := types.Unalias(a).(type) {
+		case *types.TypeParam:
+			for i := 0; i < tps.Len(); i++ {
+				if tps.At(i) == a {
+					if _, done := bind[a]; !done {
+						bind[a] = b
+					}
+				}
+			}
+		case *types.Slice:
+			if bs, ok := types.Unalias(b).(*types.Slice); ok {
+				unify(a.Elem(), bs.Elem())
+			}
+		case *types.Pointer:
+			if bp, ok := types.Unalias(b).(*types.Pointer); ok {
+				unify(a.Elem(), bp.Elem())
+			}
+		}
+	}
+	for _, recv := range []types.Type{n, types.NewPointer(n)} {
+		ms := types.NewMethodSet(recv)
+		for i := 0; i < it.NumMethods(); i++ {
+			im := it.Method(i)
+			sel := ms.Lookup(im.Pkg(), im.Name())
+			if sel == nil {
+				continue
+			}
+			isig := im.Type().(*types.Signature)
+			msig, ok := sel.Type().(*types.Signature)
+			if !ok {
+				continue
+			}
+			for j := 0; j < isig.Params().Len() && j < msig.Params().Len(); j++ {
+				unify(isig.Params().At(j).Type(), msig.Params().At(j).Type())
+			}
+			for j := 0; j < isig.Results().Len() && j < msig.Results().Len(); j++ {
+				unify(isig.Results().At(j).Type(), msig.Results().At(j).Type())
+			}
+		}
+	}
+	var targs []types.Type
+	for i := 0; i < tps.Len(); i++ {
+		t, ok := bind[tps.At(i)]
+		if !ok {
+			return nil
+		}
+		targs = append(targs, t)
+	}
+	inst, err := types.Instantiate(nil, gen, targs, false)
+	if err != nil {
+		return nil
+	}
+	in := namedOf(inst)
+	iit := in.Underlying().(*types.Interface)
+	if types.Implements(n, iit) || types.Implements(types.NewPointer(n), iit) {
+		return in
 	}
 	return nil
 }
